@@ -47,7 +47,7 @@ impl Prop for VolumeGain {
         12000
     }
     fn cases(&self, tier: Tier) -> u32 {
-        tier.pick(1_200, 30_000)
+        tier.pick(4_000, 60_000)
     }
     fn decode(&self, t: &mut Tape, _: Tier) -> Case {
         let mut base = gen_engine_case(t, 10, 10, false, GenOpts::default());
